@@ -79,8 +79,18 @@ Definition deser_file (f : jfile) : outcome dfile :=
   Ok (mkDFile (jfile_name f) fs ls).
 Definition deser (t : list jfile) : outcome (list dfile) := omapM deser_file t.
 
-(* the two loops over file.lines and file.functions *)
+(* the two loops over file.lines and file.functions.  A line shared by several functions is listed once per
+   function: `let count = lines.entry(n).or_insert(0); *count = count.saturating_add(line.count)`, and, for a
+   non-empty branch list, `branches.entry(n).or_insert_with(Vec::new).extend(branches.map(|b| b.count > 0))` *)
 Definition add_line (acc : gmap N N * gmap N (list bool)) (l : dline) : gmap N N * gmap N (list bool) :=
+  (<[dl_number l := sat_add64 (default 0 (acc.1 !! dl_number l)) (dl_count l)]> acc.1,
+   match dl_branches l with
+   | [] => acc.2
+   | bs => <[dl_number l := default [] (acc.2 !! dl_number l) ++ map (fun c => 0 <? c) bs]> acc.2
+   end).
+(* the fold before the fix of C20/gcov-json-line-in-several-functions (the last entry of a line stood); kept for the
+   regression statement only *)
+Definition add_line_last_wins (acc : gmap N N * gmap N (list bool)) (l : dline) : gmap N N * gmap N (list bool) :=
   (<[dl_number l := dl_count l]> acc.1,
    match dl_branches l with
    | [] => acc.2
